@@ -366,4 +366,71 @@ def run(ctx, prog):
         mods = [b_ for b_ in fam if b_.kind == 'Closure' and b_.locals[0] == 'bool' and b_ is not fc and 'Duration::as_secs(' in flow.render(flow.Origin(b_).of_local(0))]
         r_ = flow.render(flow.Origin(mods[0]).of_local(0)) if len(mods) == 1 else ''
         ctx.inst('C12.R6', inc.short, 'modified_since_parent compares mtime ≥ parent timestamp', bool(re.match(r'^\(Duration::as_secs\(arg:\w+\) Ge cap:parent_metadata\b[^)]*\)$', r_)), 'innermost test: %s' % r_[:120])
+    # ------------------------------------------------------------------ R7 which backups a point-in-time restore applies
+    ctx.rule('C12.R7', 'point-in-time chain selection: the backup list is sorted newest first; the base is the first Full with timestamp ≤ target in that order; '
+                       'each hop takes the FIRST element of that list (newest) whose parent is the current backup, whose timestamp is ≤ target and which is '
+                       'Incremental, and moves to it; the walk ends when there is none. (A map keyed by parent, or a last-match scan, picks an older sibling '
+                       'when two incrementals share a parent and restores a stale collection without any error)')
+    lbd = ctx.body('C12.R7', 'backup::list_backups_from_dir')
+    if lbd is not None:
+        srt = [c for c in lbd.calls if c.callee and flow.short(c.callee) == 'slice::sort_by']
+        cmpb = [prog.bodies.get(g) for c in srt for g in c.gc]
+        r_ = flow.render(flow.Origin(cmpb[0]).of_local(0)) if cmpb and cmpb[0] is not None else ''
+        rets = [x for x in lbd.return_blocks() if x in lbd.live_blocks()]
+        okret = [x for x in rets if x not in flow.err_blocks(lbd)]
+        ctx.inst('C12.R7', lbd.short, 'sorted by timestamp, newest first, before it is returned', len(srt) == 1 and r_ == 'impls::cmp(arg:b→BackupMetadata.timestamp, arg:a→BackupMetadata.timestamp)' and
+                 bool(rets) and not any(x in lbd.reach([0], avoid_blocks=[srt[0].bb] + sorted(flow.err_blocks(lbd))) for x in rets),
+                 'comparator: %s' % r_)
+    for nm in ('RestoreManager::list_backups', 'BackupManager::list_backups'):
+        lb_ = ctx.body('C12.R7', nm)
+        if lb_ is not None:
+            r_ = flow.render(flow.Origin(lb_).of_local(0))
+            ctx.inst('C12.R7', lb_.short, 'returns list_backups_from_dir(backup_dir) unchanged', bool(re.match(r'^backup::list_backups_from_dir\(.*backup_dir\)$', r_)), r_[:100])
+    pit = ctx.body('C12.R7', 'RestoreManager::restore_point_in_time_with_options')
+    if pit is not None:
+        po = flow.Origin(pit)
+        pvv = flow.Origin(pit, stop_at_vars=True)
+        nx = pit.var_local('next')
+        nxo = flow.render(po.of_local(nx[0])) if len(nx) == 1 else ''
+        fnd = [c for c in pit.calls if c.callee and re.search(r'Iterator>?::find$', c.callee)]
+        first_match = len(fnd) == 1 and nxo.startswith("<iter::Iter<'a, T> as iterator::Iterator>::find(slice::iter(RestoreManager::list_backups(arg:self)@Continue→Continue.0), closure:")
+        ctx.inst('C12.R7', pit.short, 'each hop is the first match (find) over the newest-first list', first_match, 'next = %s' % nxo[:130])
+        if fnd and fnd[0].gc:
+            fcl = prog.bodies.get(fnd[0].gc[0])
+            atoms = [pathsens.Atom('parent', r'^eq\[arg:\w+→BackupMetadata\.parent_id, option::Option::Some\{cap:current_id\}\]$'),
+                     pathsens.Atom('intime', r'^cmp\[\+ arg:\w+→BackupMetadata\.timestamp - cap:timestamp <= 0\]$')]
+            f_blocks = set(i_ for i_, blk in enumerate(fcl.blocks) for st in blk['s'] if st.get('rv') and st['pl']['l'] == 0 and st['rv']['k'] == 'use' and st['rv']['a'].get('k') == 'c' and st['rv']['a'].get('int') == 0)
+            t_blocks = set(i_ for i_, blk in enumerate(fcl.blocks) for st in blk['s'] if st.get('rv') and st['pl']['l'] == 0 and st['rv']['k'] == 'use' and st['rv']['a'].get('k') == 'c' and st['rv']['a'].get('int') == 1)
+            fv = flow.Origin(fcl, stop_at_vars=True)
+            i_blocks = set(i_ for i_, blk in enumerate(fcl.blocks) if blk['t']['k'] == 'call' and blk['t']['dest']['l'] == 0 and fcl.call_at(i_).callee and fcl.call_at(i_).callee.endswith('PartialEq>::eq') and
+                           [flow.render(fv.of_operand(a)) for a in fcl.call_at(i_).args] in (['arg:b→BackupMetadata.backup_type', 'backup::BackupType::Incremental{}'],))
+            terms, seen = _explore(fcl, atoms, mark_blocks={'F': f_blocks, 'T': t_blocks, 'ISINC': i_blocks})
+            bad = []
+            for bb_, via, a_, path_ in terms:
+                ans = [k_ for k_ in ('F', 'T', 'ISINC') if a_.get(k_)]
+                if len(ans) != 1:
+                    bad.append('answer %s' % ans)
+                elif ans[0] == 'ISINC' and not (a_.get('parent') is True and a_.get('intime') is True):
+                    bad.append('type test reached without parent = current ∧ timestamp ≤ target')
+                elif ans[0] == 'T':
+                    bad.append('accepts without the type test')
+                elif ans[0] == 'F' and not (a_.get('parent') is False or a_.get('intime') is False):
+                    bad.append('rejects although parent = current ∧ timestamp ≤ target')
+            ctx.inst('C12.R7', pit.short, 'hop predicate = parent is current ∧ timestamp ≤ target ∧ Incremental', bool(terms) and not bad and 'parent' in seen and 'intime' in seen, '%d paths; %s' % (len(terms), '; '.join(sorted(set(bad))) or 'exact'))
+        ci = pit.var_local('current_id')
+        cio = flow.render(po.of_local(ci[0])) if len(ci) == 1 else ''
+        ctx.inst('C12.R7', pit.short, 'the walk moves to the found backup (current_id := found.id, starting from the base)', 'find(' in cio and '@Some→Some.0→BackupMetadata.id' in cio and 'BackupMetadata.id' in cio.split('|')[-1], 'current_id = %s' % cio[:60])
+        fb = pit.var_local('full_backup')
+        fbo = flow.render(po.of_local(fb[0])) if fb else ''
+        preds = [(i_, tg, p) for i_, blk in enumerate(pit.blocks) if blk['t']['k'] == 'switch' and i_ in pit.live_blocks() for tg, p in flow.switch_edge_predicates(pit, i_, pvv)]
+        base_ts = [(i_, tg) for i_, tg, p in preds if re.match(r'^cmp\[\+ var:backup→BackupMetadata\.timestamp - arg:timestamp <= 0\]$|^cmp\[\+ arg:timestamp - var:backup→BackupMetadata\.timestamp >= 0\]$', p)]
+        base_full = [(i_, tg) for i_, tg, p in preds if re.match(r'^eq\[backup::BackupType::Full\{\}, var:backup→BackupMetadata\.backup_type\]$|^eq\[var:backup→BackupMetadata\.backup_type, backup::BackupType::Full\{\}\]$', p)]
+        sets = [d[0] for l_ in fb for d in pit.defs.get(l_, []) if d[2] == 'assign' and 'Some' in flow.render(pvv.of_rvalue(d[3]['rv'], 0, frozenset()))]
+        r0 = pit.reach([0], avoid_edges=base_ts)
+        r1 = pit.reach([0], avoid_edges=base_full)
+        heads = [c for c in pit.calls if c.callee and c.is_('re:Iterator>::next$') and sets and pit.dominates(c.bb, sets[0]) and 'list_backups(arg:self)' in flow.render(po.of_operand(c.args[0]))]
+        brk = bool(sets) and bool(heads) and all(h.bb not in pit.reach([sets[0]]) for h in heads)   # after taking a base the scan does not continue (break)
+        ctx.inst('C12.R7', pit.short, 'base = first Full with timestamp ≤ target in list order',
+                 bool(re.search(r"Iterator>::next\(RestoreManager::list_backups\(arg:self\)", fbo)) and bool(base_ts) and bool(base_full) and bool(sets) and all(x not in r0 and x not in r1 for x in sets) and brk,
+                 'full_backup = %s' % fbo[:120])
     ctx.stat('functions_analysed', len(set(i['key'].split(' | ')[1] for i in ctx.instances)))
